@@ -1,5 +1,6 @@
 //! Scenario driver for the wallet simulation: C01 (ledger), C06 (trees), C15 (queue).
 
+use zcash_client_backend::data_api::scanning::ScanPriority;
 use serde_json::json;
 
 use crate::choices::Choices;
@@ -115,7 +116,7 @@ impl Scenario for WalletScenario {
             ch.open("op");
             let tip = s.chain.tip();
             let base = s.cfg.base_height;
-            let k = ch.weighted("op", &[26, 16, 18, 10, 8, 5, 7, if faults_on { 10 } else { 0 }]);
+            let k = ch.weighted("op", &[26, 16, 18, 10, 8, 5, 7, if faults_on { 10 } else { 0 }, 6, 4]);
             match k {
                 // honest client step
                 0 => {
@@ -224,6 +225,54 @@ impl Scenario for WalletScenario {
                         match s.update_tip(h) {
                             Ok(()) => ctx.event(format!("update_chain_tip({h})")),
                             Err(e) => return ctx.report(Violation::new("update_chain_tip_succeeds", format!("update_chain_tip({h}): {e}"))),
+                        }
+                    }
+                }
+                // forced rescan: rewind_to_chain_state on the current chain
+                8 => {
+                    if s.dirty_fork.is_none() && tip > base {
+                        ctx.op("rewind_to_chain_state");
+                        let told = s.tip_told.unwrap_or(tip).min(tip);
+                        let maxs = s.scanned.iter().next_back().copied().unwrap_or(base);
+                        // targets near the wallet's tip, near the highest scanned block, or anywhere
+                        let target = match ch.below("target.kind", 4) {
+                            0 => told.saturating_sub(1 + ch.below("below_tip", 3) as u32),
+                            1 => maxs.saturating_sub(ch.below("below_max", 4) as u32),
+                            2 => maxs.saturating_sub(ch.below("deep", 130) as u32),
+                            _ => base + ch.below("any", (tip - base) as u64) as u32,
+                        }
+                        .max(base)
+                        .min(tip);
+                        let reset_all = ch.chance("reset_birthdays", 1, 3);
+                        match s.rewind_chain_state(target, reset_all, ctx, self.owns("queue"))? {
+                            Ok(()) => {
+                                ctx.event(format!("rewind_to_chain_state({target}) ok; {} heights queued again", s.requeued.len()));
+                                ctx.shape("rewind_cs_ok");
+                                ctx.probe("forced_rescan_installed");
+                            }
+                            Err(e) => {
+                                ctx.event(format!("rewind_to_chain_state({target}) refused: {e}"));
+                                ctx.shape("rewind_cs_refused");
+                            }
+                        }
+                    }
+                }
+                // caller-supplied rescan range
+                9 => {
+                    let q = read_queue(&s.conn).unwrap_or_default();
+                    if let (Some(lo), Some(hi)) = (q.first().map(|e| e.0), q.last().map(|e| e.1)) {
+                        if hi > lo && s.dirty_fork.is_none() {
+                            ctx.op("queue_rescans");
+                            // inside the queue's extent (an insertion beyond it is outside the documented use)
+                            let a = lo + ch.below("a", (hi - lo) as u64) as u32;
+                            let b = (a + 1 + ch.below("len", 40) as u32).min(hi);
+                            let prio = *ch.pick("prio", &[ScanPriority::Historic, ScanPriority::OpenAdjacent, ScanPriority::FoundNote, ScanPriority::ChainTip, ScanPriority::Verify, ScanPriority::Ignored]);
+                            if a > base {
+                                match s.queue_rescan(a, b, prio, ctx, self.owns("queue"))? {
+                                    Ok(()) => ctx.event(format!("queue_rescans({a}..{b}, {prio:?})")),
+                                    Err(e) => ctx.event(format!("queue_rescans({a}..{b}, {prio:?}) refused: {e}")),
+                                }
+                            }
                         }
                     }
                 }
